@@ -130,7 +130,7 @@ def subpixel_offset(
     """
     # Offset for first layer must be zero
     if offsets[0] != (0, 0):
-        offsets.insert(0, (0, 0))  # pragma: no cover
+        offsets = [(0, 0)] + list(offsets)  # pragma: no cover, a new list
     overlap = np.max(offsets, axis=0)
 
     if x.ndim != 3:  # pragma: no cover
